@@ -258,7 +258,7 @@ impl Check for C15 {
         8
     }
     fn shard_timeout_s(&self, tier: Tier) -> u64 {
-        tier.pick(1200, 6 * 3600)
+        tier.pick(2400, 6 * 3600)
     }
     fn run_case(&self, sh: &mut Shard, case: &CaseId) {
         let mut rng = Rng::new(sh.case_seed());
